@@ -139,7 +139,8 @@ def run(tier, rep):
     l1 = gen.docs("L1", tier, rep, cfg="DocGen_L1_small.cfg" if q else None)
     l2 = gen.docs("L2", tier, rep)
     docs = gen.sample(l1, 9000 if q else 120000, C.SEED, keep_short=500) + \
-        [d + "\n\n[r]: /u 't'\n\n[R]: /dup\n" for d in gen.sample(l2, 9000 if q else 120000, C.SEED + 1)]
+        [d + "\n\n[r]: /u 't'\n\n[R]: /dup\n" for d in gen.sample(l2, 9000 if q else 120000, C.SEED + 1)] + \
+        gen.twins(gen.sample(l1, 2000 if q else 30000, C.SEED + 6), C.SEED, per_doc=1)
     dense = ["# h\n\n> q\n\n- a\n1. b\n\n    code\n\n```\nf\n```\n\n***\n\n<div>\nx\n</div>\n\na|b\n-|-\n1|2\n\ns\n===\n\n"
              "*e* **s** ~~d~~ `c` [l](/u) ![i](/s) <http://a.b> <b>r</b> &amp; \\* x  \ny\nz\\\nw [r]\n\n[r]: /u\n"]
     ckeys = [gen.cfg_key(c) for c in cfgs]
